@@ -121,6 +121,25 @@ Number congruence<Number>::lcm(Number x, Number y) const {
   return abs(x * y) / tmp;
 }
 
+// Extended Euclid: returns g = gcd(x,y) for x,y >= 0 and sets u such
+// that x*u is congruent to g modulo y.
+template <typename Number>
+Number congruence<Number>::bezout(Number x, Number y, Number &u) const {
+  // invariant: r0 = x*s0 (mod y) and r1 = x*s1 (mod y)
+  Number r0(x), r1(y), s0(1), s1(0);
+  while (r1 != 0) {
+    Number q = r0 / r1;
+    Number r2 = r0 - q * r1;
+    Number s2 = s0 - q * s1;
+    r0 = r1;
+    r1 = r2;
+    s0 = s1;
+    s1 = s2;
+  }
+  u = s0;
+  return r0;
+}
+
 template <typename Number> bool congruence<Number>::is_zero() const {
   return !is_bottom() && m_a == 0 && m_b == 0;
 }
@@ -241,15 +260,17 @@ congruence<Number>::operator&(const congruence<Number> &o) const {
       return bottom();
     }
   } else {
-    // pre: a and o.a != 0
-    Number x = gcd(m_a, o.m_a);
-    if (m_b % x == (o.m_b % x)) {
-      // the part max(b,o.b) needs to be verified. What we really
-      // want is to find b'' such that
-      // 1) b'' % lcm(a,a') == b  % lcm(a,a'), and
-      // 2) b'' % lcm(a,a') == b' % lcm(a,a').
-      // An algorithm for that is provided in Granger'89.
-      return congruence<Number>(lcm(m_a, o.m_a), max(m_b, o.m_b));
+    // pre: a and o.a != 0 (so they are positive)
+    // The intersection is not empty iff gcd(a,a') divides b' - b. It
+    // is then lcm(a,a')Z + x where x is any common element (Chinese
+    // remainder theorem): with a*u = g (mod a'),
+    //   x = b + a*u*((b'-b)/g)
+    // satisfies x = b (mod a) and x = b + g*((b'-b)/g) = b' (mod a').
+    Number u(0);
+    Number g = bezout(m_a, o.m_a, u);
+    Number d = o.m_b - m_b;
+    if (d % g == 0) {
+      return congruence<Number>(lcm(m_a, o.m_a), m_b + m_a * (u * (d / g)));
     } else {
       return congruence<Number>::bottom();
     }
